@@ -284,7 +284,7 @@ def part_ret(ctx):
 
 
 PARTS = {
-    "C01": [part_guards("C01"), part_bitprov("validity"), part_tables(["T7"], {"T7": ["isBaseCellPentagonArr"]}), part_cform("C01"), part_wit("C01")],
+    "C01": [part_guards("C01"), part_bitprov("validity"), part_bitprov("indexops", "C01"), part_tables(["T7"], {"T7": ["isBaseCellPentagonArr"]}), part_cform("C01"), part_wit("C01")],
     "C02": [part_guards("C02"), part_argmin, part_bitprov("indexops", "C02"), part_tables(["T6", "T16", "T19"]), part_wit("C02")],
     "C03": [part_guards("C03"), part_argmin, part_bitprov("validity"), part_bitprov("indexops", "C03"), part_tables(["T7", "T4", "T5", "T9", "T19"], {"T7": ["isBaseCellPentagonArr", "pentagonCount", "res0CellCount", "getRes0Cells", "getPentagons", "baseCellNeighbors:rows", "baseCellNeighbor60CCWRots:rows"]}), part_cform("C03"), part_wit("C03")],
     "C04": [part_guards("C04"), part_bitprov("indexops", "C04"), part_drain(["cellToChildren"]), part_cform("C04"), part_tables(["T7"], {"T7": ["isBaseCellPentagonArr"]}), part_wit("C04")],
